@@ -89,9 +89,27 @@ def report(ctx, o, why):
 
 
 def run_harness(ctx, n, seed, env=None, name="cases.jsonl", maxreq=1000):
-    ok, _ = ctx.harness_run("c07", ["-out", name, "-seed", seed, "-n", n, "-cancel", 0, "-maxreq", maxreq],
-                            timeout=900, env=env)
+    args = ["-seed", seed, "-n", n, "-cancel", 0, "-maxreq", maxreq]
+    ok, _ = ctx.harness_run("c07", ["-out", name] + args, timeout=900, env=env)
+    if not ok:
+        crash_finding(ctx, "c07", args, n + 2, env)
     return ctx.read_jsonl(os.path.join(ctx.work, name)) if ok else []
+
+
+def crash_finding(ctx, harness, args, total, env=None, prop="C07", key="pipeline:crash"):
+    """the harness process died: a panic in a goroutine of the code under test; isolate the run that does it"""
+    if any(f["key"] == key for f in ctx.findings):
+        return
+    hit = ctx.harness_crash_search(harness, args, total, env=env)
+    if hit:
+        import re
+        k, out = hit
+        m = re.search(r"(panic: [^\n]*|fatal error: [^\n]*)", out)
+        why = "the process crashes: " + (m.group(1) if m else "harness died")
+        path = ctx.write_replay("crash%d" % k, {"property": prop, "what": why, "input": {
+            "harness": harness, "args": [str(a) for a in args], "only": k}, "output_tail": out[-1500:],
+            "replay_cmd": "%s %s -only %d" % (os.path.join(verif.HBIN, harness), " ".join(map(str, args)), k)})
+        ctx.findings.append({"key": key, "what": why, "replay": path})
 
 
 def run(ctx):
